@@ -132,7 +132,11 @@ func Harness_C12_hdr() {
 		if ows {
 			line = append(line, ' ')
 		}
-		val := nondetBytes("length-value", 2)
+		maxv := 2
+		if thorough() {
+			maxv = 3
+		}
+		val := nondetBytes("length-value", maxv)
 		for _, b := range val {
 			assume(!verifIsSpace(b)) // surrounding white space is the ows bits' job
 		}
